@@ -165,6 +165,9 @@ func Minimise(p Prop, sc interface{}, first *Violation, env *Env, maxExec int) (
 	q.Fired, q.Classes, q.Known, q.KnownN = map[string]uint64{}, map[string]uint64{}, map[string]string{}, map[string]uint64{}
 	cur, curV := sc, first
 	n := 0
+	if first.Oracle == "hang" {
+		maxExec = 0 // every still-hanging candidate would cost a full watchdog period
+	}
 	for progress := true; progress && n < maxExec; {
 		progress = false
 		for _, cand := range p.Shrink(cur, curV) {
